@@ -524,3 +524,59 @@ def source_surface():
     return {"source_constants_checked": len(_MODEL_CONSTS), "source_constants_differ_from_model": differ,
             "pub_fns_in_source": len(pubs), "pub_fns_not_called_by_harness": sorted(set(missing)),
             "exempt": _API_EXEMPT}
+
+
+# ---------------------------------------------------------------------------------------------------
+# Statement skeleton (C06): the order of the state-relevant statements in the five update bodies of /repo/src/lib.rs,
+# read from the source text, against the statement-level programs of coq/theories/Stmt.v. Like source_surface it
+# decides nothing: a refactoring may legitimately move statements into helpers; it goes into the evidence and prints
+# a NOTE when the shapes differ, which says where to look first when the correspondence of C06 breaks.
+_SKELETON_MODEL = {
+    "set_seq": ["set_seq", "insert", "check_keyed", "sign", "check_size", "set_nid", "commit"],
+    "insert_raw_rlp": ["check_reserved", "insert", "insert", "check_keyed", "check_size", "inc_seq", "sign", "set_nid", "check_size", "commit"],
+    "set_socket": ["insert", "insert", "insert", "check_keyed", "check_size", "inc_seq", "sign", "set_nid", "check_size", "commit"],
+    "remove_key": ["remove", "insert", "check_keyed", "inc_seq", "sign", "set_nid", "check_size", "commit"],
+    "remove_insert": ["remove", "check_reserved", "insert", "insert", "check_keyed", "inc_seq", "sign", "set_nid", "check_size", "commit"],
+}
+_SKELETON_PATTERNS = [
+    ("commit", r"\*self\s*=\s*new_enr"), ("inc_seq", r"checked_add\(1\)"), ("set_seq", r"new_enr\.seq\s*=\s*seq\b"),
+    ("check_reserved", r"check_spec_reserved_keys\("), ("check_keyed", r"check_keyed_by\("), ("check_size", r"\.size\(\)\s*>\s*MAX_ENR_SIZE"),
+    ("sign", r"new_enr\.sign\("), ("set_nid", r"new_enr\.node_id\s*="), ("remove", r"\.content\s*\.remove\("), ("insert", r"\.content\s*\.insert\("),
+    ("self_write", r"\bself\.(seq|signature|node_id)\s*=|self\.content\s*\.(insert|remove)\(|mem::replace\(&mut self"),
+]
+
+
+def statement_skeleton(path="/repo/src/lib.rs"):
+    import re
+    text = open(path, errors="replace").read().split("#[cfg(test)]\nmod tests")[0]
+    out, differ = {}, []
+    for fn, want in _SKELETON_MODEL.items():
+        m = re.search(r"fn\s+%s\b[^{]*\{" % fn, text)
+        if not m:
+            differ.append("%s: not found" % fn)
+            continue
+        i, depth = m.end(), 1
+        while i < len(text) and depth:
+            depth += {"{": 1, "}": -1}.get(text[i], 0)
+            i += 1
+        body = re.sub(r"//[^\n]*", "", text[m.end():i])
+        body = re.sub(r"\s+", " ", body)
+        hits = []
+        for name, pat in _SKELETON_PATTERNS:
+            for mm in re.finditer(pat, body):
+                hits.append((mm.start(), name))
+        got = [n for _, n in sorted(hits)]
+        if fn == "set_socket":
+            # the v4 and v6 arms each insert ip and port: one arm is taken
+            got2, seen = [], 0
+            for n in got:
+                if n == "insert":
+                    seen += 1
+                    if seen in (3, 4):
+                        continue
+                got2.append(n)
+            got = got2
+        out[fn] = got
+        if got != want:
+            differ.append("%s: source %s, Stmt.v %s" % (fn, got, want))
+    return {"bodies_compared": len(_SKELETON_MODEL), "differ": differ}
